@@ -225,17 +225,18 @@ func (r *SimReader) AsReader() io.Reader {
 // ---------------------------------------------------------------- writer
 
 type WriteSched struct {
-	Mode int `json:"mode"` // 0 accept all, 1 short write at K, 2 error at K
+	Mode int `json:"mode"` // 0 accept all, 1 at most K bytes per call (short writes, keeps accepting), 2 error from byte K on
 	K    int `json:"k"`
 }
 
+// SimWriter is the simulated io.Writer endpoint.  Got holds the bytes the sink accepted.
 type SimWriter struct {
 	c       *Ctx
 	s       WriteSched
 	Offered [][]byte
 	Got     []byte
 	Calls   int
-	Failed  bool
+	Failed  bool // a short write or an error was returned at least once
 }
 
 func (w *SimWriter) Write(p []byte) (int, error) {
@@ -245,20 +246,20 @@ func (w *SimWriter) Write(p []byte) (int, error) {
 	w.Offered = append(w.Offered, append([]byte(nil), p...))
 	w.c.Event("Write(%d) h=%x", len(p), uint64(fnvOff.Bytes(p)))
 	w.c.C["write_events"]++
-	if w.Failed {
-		return 0, errSim
+	if w.Calls > 10000 {
+		panic(stepLimit{}) // a writer that retries forever
 	}
 	switch w.s.Mode {
 	case 1:
-		if len(w.Got)+len(p) > w.s.K {
-			n := w.s.K - len(w.Got)
-			if n < 0 {
-				n = 0
-			}
-			w.Got = append(w.Got, p[:n]...)
+		k := w.s.K
+		if k < 1 {
+			k = 1
+		}
+		if len(p) > k {
+			w.Got = append(w.Got, p[:k]...)
 			w.Failed = true
 			w.c.C["fault.writer_short"]++
-			return n, io.ErrShortWrite
+			return k, io.ErrShortWrite
 		}
 	case 2:
 		if len(w.Got)+len(p) > w.s.K {
